@@ -292,6 +292,9 @@ pub fn canon_pair(fam: &str, kmax: i64, rng: &mut Rng) -> (Vec<(Vec<P>, Vec<Vec<
     if fam == "latraw" {
         return gen::latraw_pair(rng);
     }
+    if fam.starts_with("en:") {
+        return gen::enum_pair(fam);
+    }
     if fam == "combx" {
         let (x, y) = gen::combx_pair(rng);
         return if rng.chance(1, 2) { (x, y) } else { (y, x) };
@@ -406,10 +409,11 @@ pub fn sess_single(sid: u64, fam: &str, seed: u64, o: &Opts) -> Sess {
     let fr = frame_for(fam, &mut rng);
     let (a, b) = loop {
         let (mut ca, mut cb) = canon_pair(fam, o.kmax, &mut rng);
-        if rng.chance(1, 4) {
+        let whole = fam.starts_with("en:");     // enumerated families: the operands are the enumerated regions, nothing is dropped
+        if !whole && rng.chance(1, 4) {
             ca = keep_one(ca, &mut rng);
         }
-        if rng.chance(1, 4) {
+        if !whole && rng.chance(1, 4) {
             cb = keep_one(cb, &mut rng);
         }
         let a = gen::present(&ca, gen::RANDOMISED, &mut rng);
